@@ -1,0 +1,52 @@
+//! Instrumentation points for external verification tooling.
+//!
+//! Only compiled with the `verif_hooks` feature. A thread can install a callback that is called
+//! right before each of the marked operations is executed by that thread. This allows a test harness
+//! to control the interleaving of threads at the granularity of these operations and to log them.
+
+use std::cell::RefCell;
+
+/// The operations that are announced to the callback
+#[derive(Debug, Clone, Copy, PartialEq, Eq)]
+pub enum Point {
+    /// UnixFdInner: atomic load of the fd
+    FdLoad,
+    /// UnixFdInner: compare_exchange of the loaded fd with the invalid marker
+    FdCompareExchange,
+    /// UnixFdInner: the drop impl starts running (the last reference is gone)
+    FdInnerDrop,
+    /// dup() is about to be called on this fd
+    FdDup(i32),
+    /// close() is about to be called on this fd
+    FdClose(i32),
+}
+
+type Callback = Box<dyn FnMut(Point)>;
+
+thread_local! {
+    static CALLBACK: RefCell<Option<Callback>> = const { RefCell::new(None) };
+}
+
+/// Install (or remove) the callback for the current thread
+pub fn set_callback(cb: Option<Callback>) {
+    CALLBACK.with(|c| *c.borrow_mut() = cb);
+}
+
+pub(crate) fn point(p: Point) {
+    // take the callback out while it runs, so it may itself use instrumented operations
+    let cb = CALLBACK.with(|c| c.borrow_mut().take());
+    if let Some(mut cb) = cb {
+        cb(p);
+        CALLBACK.with(|c| {
+            let mut slot = c.borrow_mut();
+            if slot.is_none() {
+                *slot = Some(cb);
+            }
+        });
+    }
+}
+
+/// The formatting of the machine id from its random and time parts
+pub fn format_machine_uuid(rand1: u64, rand2: u32, secs: u32) -> String {
+    crate::peer::verif_format_machine_uuid(rand1, rand2, secs)
+}
